@@ -74,6 +74,7 @@ class Impl:
         import spyne.application
         self.Fault, self.E, self.appmod = Fault, E, spyne.application
         self.box = box = {'plan': None, 'ctx': None, 'snap': None}
+        self._subs = {}
         impl = self
 
         class Obj(ComplexModel):
@@ -299,14 +300,22 @@ class Impl:
         if 'fault' in r:
             return self.build_fault(r['fault'])
         if 'native' in r:
-            # a built-in error class raised through its own constructor
-            cls, args = r['native']
-            return self.classes[cls](*args)
+            # a built-in error class (or a generated subclass that overrides CODE with a sub-code) raised through
+            # its own constructor
+            cls, args = r['native'][0], r['native'][1]
+            sub = r['native'][2] if len(r['native']) > 2 else None
+            return (self.code_subclass(cls, sub) if sub else self.classes[cls])(*args)
         if 'redirect' in r:
             if r['redirect'] is None:
                 return self.OkRedirect(ctx, 'http://elsewhere/')
             return self.E.Redirect(ctx, 'http://elsewhere/')
         return build_other(r['other'])
+
+    def code_subclass(self, cls, code):
+        key = (cls, code)
+        if key not in self._subs:
+            self._subs[key] = type('Sub%d_%s' % (len(self._subs), cls), (self.classes[cls],), {'CODE': code})
+        return self._subs[key]
 
     # ---- the WSGI transport
     def call_wsgi(self, w, method, path, qs, data=b'', ctype=None):
@@ -418,10 +427,8 @@ def xml_canon(el, strip_ws=True):
 def doc_canon(v):
     if v is None:
         return None
-    if isinstance(v, bool):
-        return {'i': int(v)}
-    if isinstance(v, int):
-        return {'i': v}
+    if isinstance(v, (bool, int, float)):
+        return {'n': [cps(str(v)), not v]}     # a scalar that is not a string: its str() text and its truthiness
     if isinstance(v, bytes):
         v = v.decode('utf8')
     if isinstance(v, str):
@@ -456,7 +463,11 @@ def wire_of_body(proto, body):
         return {'doc': doc_canon(yaml.safe_load(body.decode('utf8')))}
     if proto in ('msgpack', 'msgpackrpc'):
         import msgpack
-        return {'doc': doc_canon(msgpack.unpackb(body, raw=False))}
+        d = doc_canon(msgpack.unpackb(body, raw=False))
+        if proto == 'msgpackrpc' and isinstance(d, dict) and 'l' in d:
+            # the frame header [type, msgid, …] are plain integers
+            d['l'] = [({'i': int(uncps(x['n'][0]))} if (i < 2 and isinstance(x, dict) and 'n' in x) else x) for i, x in enumerate(d['l'])]
+        return {'doc': d}
     return {'text': cps(body.decode('utf8'))}
 
 
@@ -575,6 +586,8 @@ def doc_detail(v):
         return [[uncps(k), doc_detail(x)] for k, x in v['m']]
     if isinstance(v, dict) and 'l' in v:
         return ('L', [doc_detail(x) for x in v['l']])
+    if isinstance(v, dict) and 'n' in v:
+        return ('N', uncps(v['n'][0]), v['n'][1])
     return None
 
 
@@ -585,6 +598,8 @@ def detail_value(v):
         return [[k, detail_value(x)] for k, x in v.items()]
     if isinstance(v, (list, tuple)):
         return ('L', [detail_value(x) for x in v])
+    if isinstance(v, (bool, int, float)):
+        return ('N', str(v), not v)
     return v
 
 
@@ -612,7 +627,13 @@ def value_sorted(v):
     return v
 
 
+def _is_num(v):
+    return isinstance(v, tuple) and len(v) == 3 and v[0] == 'N'
+
+
 def norm_scalar(v, as_item=False):
+    if _is_num(v):
+        return v[1]          # a number / boolean is written as its str() text (0, 0.0, False are not None)
     if v is None:
         return 'None' if as_item else None      # dict_to_etree writes str(e) for a list item
     if _is_list(v):
@@ -655,6 +676,8 @@ def value_json(v):
         return {'s': cps(v)}
     if _is_list(v):
         return {'l': [value_json(x) for x in v[1]]}
+    if _is_num(v):
+        return {'n': [cps(v[1]), v[2]]}
     return {'d': detail_json(v)}
 
 
@@ -786,6 +809,10 @@ def measure_facts(impl):
     rec = impl.run('json', 'm_str', AUX_WITNESS)
     d = ref_decode('json', wire_of_body('json', rec['body'])) if 'body' in rec else None
     f['auxGuarded'] = bool(d) and d['code'] == 'Client.Aux'
+    rec = impl.run('soap11', 'm_str', FALSY_WITNESS)
+    d = ref_decode('soap11', wire_of_body('soap11', rec['body'])) if 'body' in rec else None
+    f['emptyTest'] = 'isNone' if (d and d['detail'] == [['zero', '0'], ['no', 'False'], ['z', '0.0'], ['n', None], ['deep', [['zero', '0']]]]) else 'falsy'
+    f['ctorUsesCode'] = [b for b in BUILTINS if ctor_honours_code(impl, b)]
     rec = impl.run('soap11', 'm_str', ACTOR_NONE_WITNESS)
     f['xmlNoneActor'] = 'asEmpty' if ('body' in rec and ref_decode('soap11', wire_of_body('soap11', rec['body']))) else 'raises'
     covered = []
@@ -801,6 +828,32 @@ def measure_facts(impl):
 
 AUX_WITNESS = {'user': {'plain': {'raises': {'fault': {'cls': 'Fault', 'code': 'Client.Aux', 'str': 'm'}}}},
                'aux': {'unserialisable': True, 'tokens': ['ZqAuxWitnessXv']}}
+FALSY_WITNESS = {'user': {'plain': {'raises': {'fault': {'cls': 'Fault', 'code': 'Client.Z', 'str': 'm',
+                                                            'detail': {'zero': 0, 'no': False, 'z': 0.0, 'n': None, 'deep': {'zero': 0}}}}}}}
+# the classes of spyne/error.py with constructor arguments (model name -> (class key, args))
+BUILTINS = {'invalidCredentials': ('InvalidCredentialsError', ['denied', {'realm': 'x'}]), 'requestTooLong': ('RequestTooLongError', []),
+            'requestNotAllowed': ('RequestNotAllowed', ['nope']), 'argumentError': ('ArgumentError', ['bad arg']),
+            'invalidInput': ('InvalidInputError', ['bad', 'data']), 'missingField': ('MissingFieldError', ['fld']),
+            'validationError': ('ValidationError', ['val']), 'internalError': ('InternalError', ['err']),
+            'resourceNotFound': ('ResourceNotFoundError', ['thing']), 'respawn': ('RespawnError', ['thing']),
+            'resourceAlreadyExists': ('ResourceAlreadyExistsError', ['thing'])}
+BUILTIN_OF = {v[0]: k for k, v in BUILTINS.items()}
+CTOR_ROOT = {'MissingFieldError': 'InvalidInputError'}      # whose constructor finally chooses the code
+
+
+def base_code(impl, cls):
+    return impl.classes[cls].CODE or 'Client.InvalidInput'
+
+
+def ctor_honours_code(impl, b):
+    cls, args = BUILTINS[b]
+    code = base_code(impl, cls) + '.Witness'
+    try:
+        return impl.build_exception(None, {'native': [cls, args, code]}).faultcode == code
+    except Exception:
+        return False
+
+
 ACTOR_NONE_WITNESS = {'user': {'plain': {'raises': {'fault': {'cls': 'Fault', 'code': 'Client.A', 'str': 'm', 'actor': None}}}}}
 SWAP_WITNESS = {'swap': 'json', 'user': {'plain': {'raises': {'fault': {'cls': 'Fault', 'code': 'Client.Quota', 'str': 'quota exceeded',
                                                                                  'detail': {'limit': {'max': '3'}}}}}}}
@@ -867,20 +920,22 @@ def facts09 : Facts09 where
   client12Strip := %s
   statusAsker := .%s
   auxGuarded := %s
+  emptyTest := .%s
+  ctorUsesCode := [%s]
 
 end SpyneModel.Generated
 ''' % (', '.join('(.%s, .%s)' % ({'call': 'methodCall', 'return_object': 'returnObject'}[a], b) for a, b in f['hooksInTry']),
        ', '.join('(.%s, %d)' % kv for kv in f['dedTable']), f['clientTest'], max(f['clientStatus'], 0), max(f['defaultStatus'], 0),
        'none' if f['soapStatus'] is None else 'some %d' % f['soapStatus'], lean_text(f['genericCode']), fs,
        b(f['errorPathKeepsStatus']), lean_text(f['env11Prefix']), lean_text(f['env12Prefix']), b(f['ignoreEmptyActor']),
-       f['soap12Detail'], b(f['genFirstGuarded']), f['serErr'], f['client12Ns'], b(f['client12Strip']), f['statusAsker'], b(f['auxGuarded']))
+       f['soap12Detail'], b(f['genFirstGuarded']), f['serErr'], f['client12Ns'], b(f['client12Strip']), f['statusAsker'], b(f['auxGuarded']), f['emptyTest'], ', '.join('.' + x for x in f['ctorUsesCode']))
 
 
 GOOD = {'hooksInTry': ALL_HOOKS, 'dedTable': [('tooLong', 413), ('notFound', 404), ('notAllowed', 405), ('invalidCred', 401)],
         'clientTest': 'eqOrDotPrefix', 'clientStatus': 400, 'defaultStatus': 500, 'soapStatus': 500, 'genericCode': 'Server',
         'faultString': ('constant', 'Internal Error'), 'errorPathKeepsStatus': True, 'env11Prefix': 'soap11env',
         'env12Prefix': 'soap12env', 'soap12Detail': 'children', 'genFirstGuarded': True, 'serErr': 'funnelled',
-        'client12Ns': 'byNamespace', 'statusAsker': 'requestProtocol', 'auxGuarded': True}
+        'client12Ns': 'byNamespace', 'statusAsker': 'requestProtocol', 'auxGuarded': True, 'emptyTest': 'isNone'}
 # facts with a dedicated root-cause finding id and witness (proto, shape, plan); the others are reported by the
 # T3 oracle under its own ids (status:…, leak:…, intact:…)
 SWITCH = {'soap12Detail': (FID_S12_DETAIL, ('wsgi', 'soap12', 'm_str', S12_DETAIL_WITNESS),
@@ -900,6 +955,8 @@ SWITCH = {'soap12Detail': (FID_S12_DETAIL, ('wsgi', 'soap12', 'm_str', S12_DETAI
           'auxGuarded': ('wsgi:auxiliary-failure-breaks-response', ('wsgi', 'json', 'm_str', AUX_WITNESS),
                          'an exception that leaves the processing of an auxiliary method propagates out of the WSGI application after '
                          'start_response: the fault of the primary call is not delivered'),
+          'emptyTest': ('xml:falsy-detail-value-lost', ('wsgi', 'soap11', 'm_str', FALSY_WITNESS),
+                        'dict_to_etree writes detail values 0, 0.0 and False as empty elements: the XML protocols lose them'),
           'client12Ns': (FID_C12_NS, ('loop', 'soap12', 'm_str', C12_NS_WITNESS),
                          'the spyne Soap12 client cannot read the faults the spyne Soap12 server writes (needs the prefix "soap" to be '
                          'declared; AttributeError on the empty Role element): ctx.in_error is never set')}
@@ -989,7 +1046,9 @@ def g_detail(rng, proto, depth=0):
             v = ''
         elif r < 0.72:
             v = {}
-        elif r < 0.86:
+        elif r < 0.8:
+            v = rng.choice(SCALARS)
+        elif r < 0.9:
             v = [g_item(rng, proto, depth) for _ in range(rng.choice([0, 1, 2, 2, 3, 4]))]
         else:
             v = g_detail(rng, proto, depth + 1)
@@ -997,9 +1056,14 @@ def g_detail(rng, proto, depth=0):
     return d
 
 
+SCALARS = [0, 0.0, False, True, 1, -7, 3.5, 10 ** 12, -0.25, 0, False]
+
+
 def g_item(rng, proto, depth):
-    """an item of a list value: a string or a dict (what dict_to_etree handles structurally)"""
+    """an item of a list value: a string, a number / boolean or a dict (what dict_to_etree handles structurally)"""
     r = rng.random()
+    if r < 0.12:
+        return rng.choice(SCALARS)
     if r < 0.55 or depth >= 3:
         return g_message(rng, proto, edges=False) or rng.choice(['x', ''])
     if r < 0.62:
@@ -1064,7 +1128,11 @@ def g_raised(rng, impl, proto, in_generator=False):
     if r < 0.5:
         return {'fault': g_fault_spec(rng, impl, proto)}
     if r < 0.58:
-        return {'native': list(rng.choice(NATIVE))}
+        n = list(rng.choice(NATIVE))
+        if n[0] in BUILTIN_OF and rng.random() < 0.6:
+            # a generated subclass that overrides CODE with a more specific dotted sub-code
+            n.append(base_code(impl, n[0]) + '.' + '.'.join(g_name(rng, LETTERS) for _ in range(rng.choice([1, 1, 2, 3]))))
+        return {'native': n}
     if r < 0.61 and not in_generator:
         return {'redirect': rng.choice([None, 'fails'])}
     return {'other': g_other(rng, in_generator)}
@@ -1126,6 +1194,7 @@ def fixed_cases(impl):
           F(str=''), F(str=' sp '), F(str='<&>"\''), F(str='line1\nline2'), F(str='a\n\nb'), F(str='é中😀'),
           F(detail={}), F(detail={'a': 'b'}), F(detail={'a': 'b', 'c': {'d': 'e'}}), F(detail={'a': None, 'b': '', 'c': {}}),
           F(detail={'a': {'b': {'c': {'d': 'deep'}}}}), F(detail={'d': ['x', 'y']}), F(detail={'d': ['only']}),
+          F(detail={'zero': 0, 'f': False, 'z': 0.0, 'n': None, 'one': 1, 't': True, 'l': [0, False, 'x', 2.5], 'deep': {'zero': 0, 'e': ''}}),
           F(detail={'d': [{'a': '1'}, {'b': '2'}], 'e': [], 'f': ['', 'z']}), F(detail={'a': {'l': ['p', {'q': ['r', 's', 't']}, {}]}}),
           F(actor='http://actor/'), F(actor=None), F(actor=None, detail={'a': 'b'}),
           F(cls='MemFault', members={'extra': 'EXTRA', 'num': 5}), F(cls='MemFault2', code='Server.M', members={'extra': 'e', 'more': 'm<&>'}),
@@ -1135,6 +1204,7 @@ def fixed_cases(impl):
           F(cls='RequestNotAllowed', code='Whatever'), F(cls='InvalidCredentialsError', code='Server.Cred', detail={'realm': 'r'}),
           F(code='Weird.X'), F(code='Sender.X')]
     rs += [{'native': list(n)} for n in NATIVE]
+    rs += [{'native': [cls, args, base_code(impl, cls) + '.Sub.deeper']} for cls, args in BUILTINS.values()]
     rs += [{'redirect': None}, {'redirect': 'fails'}]
     mk_other = lambda base, **kw: {'other': dict({'base': base, 'text': 'secret ZqFixedTokenAAAXv', 'type': 'ExcZqFixedTokenBBBXv',
                                                   'module': 'modZqFixedTokenCCCXv', 'frames': ['fn_ZqFixedTokenDDDXv'],
@@ -1330,7 +1400,14 @@ class Oracle:
                 self.fail(later_fid or (FID_SWAP if (swapped and self.facts['statusAsker'] != 'requestProtocol') else None) or
                           'status:%s:%s' % (proto, status_class(self.impl, inst)), 'status %s instead of the documented %d for %r'
                           % (rec.get('status'), want, inst), case)
-            if dec['code'] != inst.faultcode:
+            if 'native' in r and len(r['native']) > 2:
+                # the class declares its code: CODE of the generated subclass
+                if dec['code'] != r['native'][2]:
+                    root = CTOR_ROOT.get(r['native'][0], r['native'][0])
+                    self.fail('ctor:code-literal:' + root if inst.faultcode != r['native'][2] else (later_fid or 'intact:%s:code' % proto),
+                              'a subclass of %s that declares CODE = %r is raised / delivered with the code %r'
+                              % (r['native'][0], r['native'][2], dec['code']), case)
+            elif dec['code'] != inst.faultcode:
                 self.fail(later_fid or 'intact:%s:code' % proto, 'fault code %r arrives as %r' % (inst.faultcode, dec['code']), case)
             if dec['str'] != inst.faultstring:
                 self.fail(later_fid or 'intact:%s:message' % proto, 'fault message %r arrives as %r' % (inst.faultstring, dec['str']), case)
@@ -1488,6 +1565,14 @@ def run(ctx):
         ctx.hit('fact-bad:xmlNoneActor')
         ctx.finding(FID_ACTOR_NONE, 'a Fault raised with faultactor=None cannot be written by the XML protocols: TypeError escapes the WSGI application',
                     {'case': {'via': 'wsgi', 'proto': 'soap11', 'shape': 'm_str', 'plan': ACTOR_NONE_WITNESS}, 'fact': 'xmlNoneActor'})
+    for b, (cls, args) in BUILTINS.items():
+        if b not in f['ctorUsesCode']:
+            ctx.hit('fact-bad:ctorUsesCode:' + b)
+            code = base_code(impl, cls) + '.Witness'
+            ctx.finding('ctor:code-literal:' + CTOR_ROOT.get(cls, cls), 'the constructor of %s does not take the fault code from self.CODE: a subclass that '
+                        'declares CODE = %r is raised with %r' % (cls, code, impl.build_exception(None, {'native': [cls, args, code]}).faultcode),
+                        {'case': {'via': 'wsgi', 'proto': 'json', 'shape': 'm_str',
+                                  'plan': {'user': {'plain': {'raises': {'native': [cls, args, code]}}}}}, 'fact': 'ctorUsesCode'})
     if f['client12Strip']:
         ctx.finding(FID_C12_STRIP, 'Soap12.fault_from_element strips the reason text',
                     {'case': {'via': 'loop', 'proto': 'soap12', 'shape': 'm_str', 'plan': C12_STRIP_WITNESS}, 'fact': 'client12Strip'})
@@ -1582,6 +1667,11 @@ def run(ctx):
         res = impl.run_loop(proto, shape, plan)
         run_loop_case(ctx, impl, oracle, add, proto, shape, plan, res, insts)
 
+    # ---- the constructors of the built-in error classes: which code does an instance get?
+    for b, (cls, args) in BUILTINS.items():
+        for code in [None, base_code(impl, cls) + '.Sub'] + [base_code(impl, cls) + '.' + g_name(rng, LETTERS) for _ in range(3)]:
+            inst = impl.build_exception(None, {'native': [cls, args] + ([code] if code else [])})
+            add({'op': 'ctor', 'cls': cls, 'code': None if code is None else cps(code)}, {'ok': cps(inst.faultcode)})
     # ---- Python str.strip vs the model's (used by the Soap12 client)
     for _ in range(200 if ctx.thorough else 60):
         s = g_message(rng, 'json')
@@ -1728,7 +1818,7 @@ def sort_detail_json(j):
 
 
 def sort_value_json(v):
-    if v is None or 's' in v:
+    if v is None or 's' in v or 'n' in v:
         return v
     if 'l' in v:
         return {'l': [sort_value_json(x) for x in v['l']]}
